@@ -271,6 +271,39 @@ func runC20(c *core.Ctx) {
 				c.Check(strict, "C20.largest", short+"/leader-update", iff.Pos(), "leader replaced only by strictly larger voted power (big.Int)", "leader comparison is not strict")
 			}
 		}
+		// leader aliasing: the leader's power must not be the very big.Int that the loop keeps
+		// accumulating into — a tally object allocated once outside the loop, reset per proposal and
+		// assigned to the leader variable makes the "largest so far" track whatever was tallied last
+		aliasBad := false
+		for _, s2 := range core.Sites(fn) {
+			name := s2.Callee
+			if !strings.HasPrefix(name, "(*math/big.Int).") || !bigIntMutating[name[len("(*math/big.Int)."):]] || len(s2.Common.Args) == 0 || !core.InCycle(s2.Block()) {
+				continue
+			}
+			acc := core.Unwrap(s2.Common.Args[0])
+			ai, ok := acc.(ssa.Instruction)
+			if !ok || core.InCycle(ai.Block()) {
+				continue // a fresh object per iteration
+			}
+			// the reused accumulator flows into another loop-carried variable
+			for _, b := range fn.Blocks {
+				for _, in := range b.Instrs {
+					ph, ok := in.(*ssa.Phi)
+					if !ok {
+						break
+					}
+					for _, e := range ph.Edges {
+						if core.Unwrap(e) == acc && core.InCycle(ph.Block()) {
+							aliasBad = true
+							c.Bad("C20.largest", short+"/leader-alias", ph.Pos(), "the variable "+ph.Comment+" is assigned the tally accumulator itself, which is allocated once and reset/added to on every iteration: the recorded maximum changes with every later proposal (the first proposal with any support wins, judged by the last proposal's power)")
+						}
+					}
+				}
+			}
+		}
+		if !aliasBad {
+			c.OK("C20.largest", short+"/leader-alias", fn.Pos(), "no loop-carried variable aliases a tally object that is reused across iterations")
+		}
 		// effect gating in the caller
 		caller := c.MustFn("C20.effect", t.caller)
 		if caller == nil {
